@@ -36,13 +36,14 @@ func runC07(x *Ctx) {
 	x.C.Rule("C07.R5", "construct-side counterparts of decode-side validators", 5)
 	x.C.Rule("C07.R6", "generic decoder = typed decoders", 1)
 	x.C.Rule("C07.R7", "encoders return the codec's fresh output", 3)
-	x.C.Rule("C07.R8", "ordered containers (Args, Meta): a key is appended to the key list exactly when it is new in the map", 4)
+	x.C.Rule("C07.R8", "ordered containers (Args, Meta): a key is appended to the key list exactly when it is new in the map; ToIPLD assembles every key", 5)
 
 	for _, pk := range []string{"token/delegation", "token/invocation"} {
 		fieldBijection(x, pk)
 	}
 	codecPairing(x)
 	keysPairedWithValues(x)
+	containerComplete(x, "C07.R8", "(*pkg/args.Args).ToIPLD")
 
 	parse, pub, from, cfc := x.fn("C07.R3", "did.Parse"), x.fn("C07.R3", "(did.DID).PubKey"), x.fn("C07.R3", "did.FromPubKey"), x.fn("C07.R3", "did.codeForCurve")
 	if parse != nil && pub != nil && from != nil && cfc != nil {
